@@ -71,7 +71,7 @@ theorem relay_ack_passthrough (s : Core) (p : Packet) (a : Data) (π : Proof) (h
     (acknowledgePacket H s p a π h).2 = .ok ∧
     (acknowledgePacket H s p a π h).1.ps.ack p.key = some (H a) ∧
     ∃ cl sn, s.clients (ackProver s p) = some cl ∧ cl.cons h = some sn ∧ sn.ack p.key = some (H a) := by
-  obtain ⟨_, _, cl, sn, hcl, _, hsn, _, hack⟩ := hok
+  obtain ⟨_, _, cl, sn, hcl, _, _, hsn, _, hack⟩ := hok
   refine ⟨?_, ?_, cl, sn, hcl, hsn, hack⟩
   all_goals
     rcases acknowledgePacket_cases H s p a π h with ⟨_, e⟩ | ⟨hn, _⟩
@@ -82,7 +82,7 @@ theorem relay_ack_passthrough (s : Core) (p : Packet) (a : Data) (π : Proof) (h
       cases hc : s.clients p.src with
       | none => rw [hc] at hsrc; cases hsrc
       | some c => simp
-    · exact absurd ⟨‹_›, ‹_›, cl, sn, hcl, ‹_›, hsn, ‹_›, hack⟩ hn
+    · exact absurd ⟨‹_›, ‹_›, cl, sn, hcl, ‹_›, ‹_›, hsn, ‹_›, hack⟩ hn
 
 /-- The relay chain never runs application logic for traffic passing through: a receive whose
     destination is another chain, and an acknowledgement whose source is another chain, leave
